@@ -28,10 +28,12 @@ type call struct {
 
 	out     *outPipe
 	release chan struct{}
+	hold    chan struct{} // non-nil: Output parks on it until the plan releases the call
 
 	// written by the code's goroutines
 	mu        sync.Mutex
 	outputs   int // times Output was called
+	parked    bool
 	connected bool
 	returned  bool
 	err       error
@@ -43,6 +45,8 @@ type call struct {
 	overlapped   bool
 	afterPinned  bool
 	sawConnected bool
+	sawParked    bool
+	outReleased  bool // hold has been closed
 	sawReturned  bool
 	ended        bool
 	judged       bool
@@ -151,7 +155,17 @@ func (sh shellImpl) SetInput(in io.Reader) {
 func (sh shellImpl) Output() io.ReadCloser {
 	sh.c.mu.Lock()
 	sh.c.outputs++
+	sh.c.parked = sh.c.hold != nil
 	sh.c.mu.Unlock()
+	if sh.c.hold != nil {
+		// simpleshell.Go asks for the output after it has prepared its client
+		// and before it connects: parking here lets other calls be set up in
+		// between
+		<-sh.c.hold
+		sh.c.mu.Lock()
+		sh.c.parked = false
+		sh.c.mu.Unlock()
+	}
 	return sh.c.out
 }
 
